@@ -183,12 +183,22 @@ func c13Tree(r *rand.Rand, k int) (*Node, string) {
 		}
 	case 7:
 		// lists and integer extremes
-		long := make([]int64, 150+r.Intn(100))
+		long := make([]int64, []int{64, 100, 150, 255, 256, 257, 300, 512, 1000, 1024, 1025, 5000}[r.Intn(12)])
 		for i := range long {
 			long[i] = int64(r.Intn(1000) - 500)
 		}
+		longS := make([]string, []int{64, 100, 255, 256, 257, 300, 1024, 2000}[r.Intn(8)])
+		for i := range longS {
+			longS[i] = fmt.Sprintf("s%d", r.Intn(500))
+		}
 		ex := func() *Node { return Lit(extremeInts[r.Intn(len(extremeInts))]) }
-		switch r.Intn(4) {
+		switch r.Intn(7) {
+		case 4:
+			return Op("in", TBool, Var("s0", TStr), Lit(longS)), "lists-extremes"
+		case 5:
+			return Op("and", TBool, Var("b0", TBool), Op("overlap", TBool, Lit(long), Var("li0", TIList)), Op("in", TBool, Lit(int64(3)), Lit(long))), "lists-extremes"
+		case 6:
+			return Op("or", TBool, Op("overlap", TBool, Var("ls0", TSList), Lit(longS)), Op("in", TBool, Lit("s1"), ConstRef("KLONGS", longS))), "lists-extremes"
 		case 0:
 			return Op("in", TBool, Var("i0", TInt), Lit(long)), "lists-extremes"
 		case 1:
